@@ -11,6 +11,7 @@ CONSTANTS
   CacheExp = 2
   TTLs = {1, 3}
   Caps = {1}
+  Ticks = {1, 2}
   MaxTime = 5
   MaxOps = 4
   WebCaseSensitive = FALSE
@@ -19,6 +20,7 @@ CONSTANTS
   KeepOldLocal = FALSE
   NoLocalExpiry = FALSE
   NoNamespace = FALSE
+  SplitDNS = FALSE
   KeepHist = FALSE
 VIEW view
 INVARIANTS WebSeesOwnDNS
